@@ -35,6 +35,8 @@ def setup(rep, tier):
     rep.minimum('R07.4', 12)
     rep.minimum('R07.5', 2)
     rep.minimum('R07.6', 2)
+    rep.minimum('R07.7', 2)
+    rep.minimum('R07.8', 2)
 
 
 def rooted_at_param(f, lv, pidx):
@@ -465,7 +467,67 @@ def r07_6(rep, prog):
         rep.unresolved('R07.6', 'begin-shifted views of rp->len / rp->frames not found')
 
 
+def r07_78(rep, prog):
+    """R07.7 both places of out_range_impl that account for the self-delimiting size prefix use the
+    size of the LAST frame of the range (len[count-1]); R07.8 opus_packet_unpad and
+    opus_multistream_packet_unpad return a length only after the packet went through the repacketizer
+    (parse + validate + canonical re-emission): no success return bypasses it."""
+    f = prog.fn('opus_repacketizer_out_range_impl')
+    cf = cfgm.CFG(f)
+    psd = f.param_index('self_delimited')
+    sites = []
+    for b, i, n in cf.find(lambda n: n[0] in ('assign', 'cassign') and sx.kind(sx.strip_paren(n[1] if n[0] == 'assign' else n[2])) == 'local'
+                           and sx.strip_paren(n[1] if n[0] == 'assign' else n[2])[1] == 'tot_size'):
+        rhs = n[2] if n[0] == 'assign' else n[3]
+        cmps = [m for m in sx.walk(rhs) if m[0] == 'bin' and m[1] in ('>=', '<=', '<', '>') and (sx.int_val(m[2]) in (252, 251) or sx.int_val(m[3]) in (252, 251))]
+        facts = T.stable_facts(cf, b, i)
+        if cmps and any(a == ('!=', ('param', psd), ('int', 0)) for a in facts):
+            sites.append((b, i, n, cmps[0]))
+    for b, i, n, c in sites:
+        other = sx.strip(c[2]) if sx.int_val(c[3]) is not None else sx.strip(c[3])
+        ok = sx.kind(other) == 'idx' and sx.kind(sx.strip(other[2])) == 'bin' and sx.strip(other[2])[1] == '-' and sx.int_val(sx.strip(other[2])[3]) == 1 and \
+            sx.kind(sx.strip(sx.strip(other[2])[2])) == 'local' and sx.strip(sx.strip(other[2])[2])[1] == 'count'
+        where = '%s:%s' % (f.file, sx.line(n))
+        inst = '%s:out_range_impl counts the self-delimiting prefix from the size of the last frame (`%s`)' % (prog.config, sx.show(n)[:50])
+        (rep.holds if ok else rep.violated)('R07.7', inst, where, 'size tested: `%s`' % sx.show(other), **({} if ok else {'key': 'selfdelim-size:%s' % sx.show(other)}))
+    if len(sites) < 2:
+        rep.unresolved('R07.7', 'expected two accountings of the self-delimiting size prefix, found %d' % len(sites))
+    for fname, gate in (('opus_packet_unpad', 'opus_repacketizer_cat'), ('opus_multistream_packet_unpad', 'opus_repacketizer_cat_impl')):
+        g = prog.fn(fname)
+        cg = cfgm.CFG(g)
+        gates = {b for b, i, c in T.calls_to(cg, (gate,))}
+        bad = []
+        nret = 0
+        for b, i, s_ in T.returns_of(cg):
+            v = T.const_ret(s_)
+            if v is not None and v < 0:
+                continue
+            facts = T.stable_facts(cg, b, i)
+            e = sx.strip(s_[1]) if s_[1] is not None else None
+            # propagated error codes
+            if e is not None and sx.kind(e) == 'local' and any(a[0] == '<' and a[1] == sx.key(e) and a[2] == ('int', 0) for a in facts):
+                continue
+            nret += 1
+            if e is not None and sx.kind(e) == 'local' and any(cg.blocks[x].get('term', {}).get('kind') in ('ForStmt', 'WhileStmt') for x in cg.blocks):
+                # accumulated over a loop (one sub-packet per stream): every contribution to the
+                # returned length must come after the gate of its iteration
+                contrib = [(b2, i2) for b2, i2, m in cg.find(lambda m: m[0] in ('assign', 'cassign') and sx.key(sx.strip_paren(m[1] if m[0] == 'assign' else m[2])) == sx.key(e)
+                                                          and sx.int_val(m[2] if m[0] == 'assign' else m[3]) is None)]
+                if not contrib or not all(any(cg.dominates(gb, b2) for gb in gates) for b2, i2 in contrib):
+                    bad.append(sx.line(s_))
+            elif not cg.must_pass_live(cg.entry, {b}, gates):
+                bad.append(sx.line(s_))
+        inst = '%s:%s reports a length only for packets that went through %s' % (prog.config, fname, gate)
+        if bad:
+            rep.violated('R07.8', inst, '%s:%s' % (g.file, bad[0]), 'the return at line %s can be reached without parsing / re-emitting the packet: invalid or non-canonical input is reported as successfully unpadded' % bad[0], key=fname + ':bypass')
+        elif nret and gates:
+            rep.holds('R07.8', inst, g.where(), '%d success return(s)' % nret)
+        else:
+            rep.unresolved('R07.8', '%s: no success return / no %s call found' % (fname, gate))
+
+
 def check(rep, prog, tier):
+    r07_78(rep, prog)
     r07_5(rep, prog)
     r07_6(rep, prog)
     r07_1(rep, prog)
